@@ -1279,7 +1279,10 @@ def phase_san(ctx):
             continue
         if not hasattr(mod, "run"):
             continue
-        sub = SubCtx(ctx, name, factor, ctx.scale(12, 250))
+        # c09 / c20 start with their gcpoints stratum (a collection before every statement of an
+        # operation): give those scenarios their own share so the histories keep theirs
+        sub = SubCtx(ctx, name, factor,
+                     ctx.scale(12, 250) + (ctx.scale(6, 24) if name in ("c09", "c20") else 0))
         import time as _t
         _t0 = _t.time()
         try:
